@@ -4,8 +4,12 @@ Engine N, operation-sequence search with state deduplication.  The world is a cq
 connection over a fake session whose statements are executed by the independent interpreter
 `vt.spec.minicql` (Cassandra cell semantics).  Operations are real cqlengine calls on three
 models/slots: X = an instance created at (pk=1, ck=1) and Y = one created at (pk=1, ck=2) of a table
-with a partition key, a clustering key and scalar, static, set, list and map columns, Z = row pk=1 of
-a counter table.  A persisted instance can be moved: a new value is assigned to its clustering and/or
+with a partition key, a clustering key and scalar, static, set, list and map columns and two nested-collection
+columns (nm = map<int, frozen<list<int>>>, nl = list<frozen<set<int>>>), Z = row pk=1 of a counter table.
+Besides assignment and in-place change of the column's own container, an INNER container of a nested
+column is changed in place (nm[1].append(3), nl[0].add(3), ...) right after each kind of value snapshot the
+mapper takes: create(), a save()/update() that wrote the column, update(col=...), a batched create, and an
+instance built from a query row (refetch).  A persisted instance can be moved: a new value is assigned to its clustering and/or
 partition key column (alone or together with other mutations) and it is saved; from then on the slot
 addresses the row under the instance's current key (locations (1,3), (2,1), (2,2), (2,3) besides the two
 home keys; two partitions, each with its own static column).
@@ -35,8 +39,15 @@ META = {
             'key assignment (a new value for the clustering key, the partition key or both on a persisted instance, alone or with other '
             'mutations, then save(), also inside a batch) '
             'operations on two instances of a model with a partition key, a clustering key and scalar, static, set, list and map columns '
+            'plus two nested-collection columns, Map(Integer, List(Integer)) and List(Set(Integer)) '
             '(six row locations in two partitions) and on a counter model. '
-            'States are (interpreter table content, per-slot instance values, previous values, explicit flags, sync flag) and are expanded once. '
+            'Nested columns are assigned as a whole, per entry, appended to / popped, updated through query-set operators, and an INNER '
+            'container is changed in place (append / pop / item assignment on an inner list, add / discard on an inner set, alone or with an '
+            'unrelated change) followed by save() or update(), after every kind of snapshot of the instance: create(), a save/update that '
+            'wrote the column, update(col=..), batched create, key assignment + save, and refetch (the in-sync instance replaced by the one '
+            'a query for its row returns). '
+            'States are (interpreter table content, per-slot instance values, previous values, explicit flags, number of inner containers '
+            'shared between a value and its snapshot, sync flag) and are expanded once. '
             'Every explored trace is an execution of the real cqlengine code; the CQL it emits is parsed and applied by vt/spec/minicql.py.',
     'note': 'Trusted base: the cell semantics S1-S10 of vt/spec/minicql.py (listed in the evidence assumptions) and the fake session. '
             'Operations whose documented meaning is unclear (writes through a stale instance, create over an existing row, counter '
@@ -194,7 +205,7 @@ class World(object):
             if i is None:
                 insts.append(None)
             else:
-                vals = tuple((n, nv(m.value), nv(m.previous_value), bool(m.explicit), shared_inner(m.value, m.previous_value))
+                vals = tuple((n, nv(m.value), m.value is None, nv(m.previous_value), bool(m.explicit), shared_inner(m.value, m.previous_value))
                              for n, m in sorted(i._values.items()))
                 insts.append((self.sync[slot], bool(i._is_persisted), vals))
         return (self.db.snapshot(), tuple(insts))
@@ -355,6 +366,24 @@ MUTATIONS = [
     ('combo-static', lambda i: True,
      lambda i: (setattr(i, 'st', 'k'), setattr(i, 'v', 6), i.m.pop(1, None)), True),
 ]
+# columns whose container object a mutation changes in place: the user can only do that while the attribute holds a container
+# (after `inst.l = None; inst.save()` the attribute is None until the instance is loaded again)
+_INPLACE = {'s.add3': 's', 's.discard1': 's', 'l.append3': 'l', 'l.prepend0': 'l', 'l.both': 'l', 'l.pop': 'l',
+            'm[3]=30': 'm', 'm[1]=11': 'm', 'del m[1]': 'm', 'combo': 's l m', 'combo-static': 'm',
+            'nm[1].append3': 'nm', 'nm[1].pop': 'nm', 'nm[2][0]=6': 'nm', 'nl[0].add3': 'nl', 'nl[-1].add4': 'nl',
+            'nl[0].discard1': 'nl', 'nested-combo': 'nm nl', 'nm[3]=[7]': 'nm', 'nm[1]=[1,2,3]': 'nm', 'del nm[1]': 'nm',
+            'nl.append{5}': 'nl', 'nl.pop': 'nl'}
+
+
+def _with_container_guard(mut):
+    name, guard, apply, static = mut
+    cols = _INPLACE.get(name, '').split()
+    if not cols:
+        return mut
+    return (name, lambda i: all(getattr(i, c) is not None for c in cols) and guard(i), apply, static)
+
+
+MUTATIONS = [_with_container_guard(m) for m in MUTATIONS]
 QUICK_MUT_SAVE = {'v=7', 'v=None', 'st=b', 'st=None', 's.add3', 's.discard1', 's=empty', 'l.append3', 'l.prepend0', 'l.pop',
                   'l=empty', 'm[3]=30', 'del m[1]', 'm=empty', 'combo', 's={1,2}', 'l=[1,2]', 'm={1:10,2:20}', 's={1}', 'l=[1]', 'm={1:10}',
                   'nm[1].append3', 'nm[1].pop', 'nl[0].add3', 'nl[-1].add4', 'nested-combo', 'nm[3]=[7]', 'del nm[1]',
@@ -993,6 +1022,11 @@ ASSUMPTIONS = [
     'S8 batches apply atomically; same-cell conflicts inside one batch are not generated (tie rules not modelled)',
     'S9 USING TTL has no visible effect (no time passes); USING TIMESTAMP is not generated',
     'an absent row and a row whose columns are all null are not distinguished by the read-back oracle',
+    'nested collections: the inner collection is frozen, i.e. one cell value that is replaced as a whole ("nm"[k] = <list>, whole-list '
+    'rewrite of nl) and compared by value; an inner collection is never emptied by the generated operations (a frozen empty collection is '
+    'a value distinct from null in Cassandra, while the interpreter stores every empty collection as null)',
+    'refetch builds the instance from the row the interpreter returns for SELECT ... WHERE pk = .. AND ck = .. (nested values arrive as '
+    'dict / list of tuple / frozenset; the real driver hands over OrderedMapSerializedKey / SortedSet, container class is not the subject here)',
     'saving a persisted instance after assigning a key column writes the whole instance under the new key (read-back at the new key equals the '
     'instance) and does not address the row under the old key; moves onto an existing row, or into a partition whose stored static column is set '
     'while the instance has none, are upserts over stored values: not generated; update() after a key assignment and key assignment on counter '
